@@ -714,6 +714,79 @@ def rule_noexcept(m):
     return res
 
 
+def rule_no_recursion(m):
+    """D-REC: the library's functions do not call themselves, directly or through each other."""
+    res = RuleResult('D-REC', 'the call graph of the library is acyclic: no function reaches itself (the path reconstruction and '
+                              'the searches keep their work lists on the heap; a recursive formulation uses call-stack depth '
+                              'proportional to the length of a path / the size of the graph and overflows the stack on long ones)')
+    edges = {}
+    byk = {}
+    for f in m.fns:
+        if not f.tname.startswith(NS):
+            continue
+        byk[f.key] = f
+        for nid, g in m.callees(f):
+            if g.tname.startswith(NS):
+                edges.setdefault(f.key, set()).add(g.key)
+    state = {}
+    cyc = []
+
+    def dfs(k, stack):
+        state[k] = 1
+        for k2 in edges.get(k, ()):
+            if state.get(k2) == 1:
+                cyc.append(stack[stack.index(k2):] + [k2] if k2 in stack else [k, k2])
+            elif k2 not in state:
+                dfs(k2, stack + [k2])
+        state[k] = 2
+    import sys
+    sys.setrecursionlimit(10000)
+    for k in list(byk):
+        if k not in state:
+            dfs(k, [k])
+    res.sites += len(byk)
+    reported = set()
+    for c in cyc:
+        f = byk.get(c[0])
+        if f is None or f.tname in reported:
+            continue
+        reported.add(f.tname)
+        res.fail(Finding('D-REC', f.display(), 'recursive call', f.where(),
+                         '%s reaches itself through %s: the depth of the call stack grows with the input (hop distance, number of '
+                         'vertices), so a long path or a large graph ends in a stack overflow instead of a result'
+                         % (f.display(), ' -> '.join(byk[x].display() if x in byk else x for x in c[1:]) or 'a direct call')))
+    for _ in range(len(byk) - len(reported)):
+        res.ok(None)
+    res.require_sites(100, 'functions')
+    return res
+
+
+def rule_sibling_totals(m):
+    """D-SIB: sibling classes keep their running totals in the same type."""
+    res = RuleResult('D-SIB', 'the running totals of sibling classes have one type (both weighted classes, both multigraphs): the '
+                              'directed and the undirected variant accumulate the same quantity, and a narrower accumulator in one of '
+                              'them loses what the other keeps (long double vs double: partial sums beyond 53 bits)')
+    types = {}
+    for u, r in _records(m, m.std):
+        if r['tname'] in (DWG, UWG, DMG, UMG) and not r['dependent']:
+            for fl in r['fields']:
+                tn = u.decl(fl['d'])['tname'] if 'd' in fl else r['tname'] + '::' + fl['name']
+                if m.role_of_field(tn) == 'T':
+                    types[r['tname']] = (fl['ctype'], _loc(u, fl['loc']))
+    for a, b in ((DWG, UWG), (DMG, UMG)):
+        if a in types and b in types:
+            res.sites += 1
+            if types[a][0] == types[b][0]:
+                res.ok(dict(classes=[short(a), short(b)], total_type=types[a][0]))
+            else:
+                res.fail(Finding('D-SIB', short(b), 'type of the running total', types[b][1],
+                                 'the running total of %s is `%s`, that of its sibling %s is `%s`: the same sequence of insertions '
+                                 'and removals leaves different totals in the two classes once a partial sum does not fit the '
+                                 'narrower type' % (short(b), types[b][0], short(a), types[a][0])))
+    res.require_sites(2, 'sibling pairs')
+    return res
+
+
 def rule_defaults(m):
     """D-DEFAULT: sibling agreement of boolean default arguments."""
     res = RuleResult('D-DEFAULT', 'a boolean parameter of the same name has the same default value in every public declaration '
